@@ -68,6 +68,20 @@ CHECKS["C13"] = dict(
     technique="TLC trace validation of API executions against a TLA+ contract; TLC model checking of the contract's identity rules",
 )
 
+CHECKS["C11"] = dict(
+    category="model_checking",
+    text="JlsTs.tla models the annotation index pyramid (commit on D entries, first entry propagated upwards, flush at close) and the descent of "
+         "jls_core_ts_seek; TLC checks, for every non-decreasing timestamp sequence of <= 8 (thorough 10) entries over 4 values with D = 2 and 3 and every "
+         "seek target, that the iteration is a contiguous tail holding every entry >= t and at most one earlier one. Every sequence of that state "
+         "space is then written with the real library (decimation 2/3, FSR signal and signal 0) and read back from six targets, together with seeded "
+         "larger programs (0..1100+ annotations, decimation 2,3,7,10,100/default, equal-timestamp runs across index chunks, offset ids, all storage "
+         "types, payloads > 1 MiB, stopped iteration); " + _API.split('; TLC replays')[0].split('Programs are generated (seeded), ')[0] +
+         "TLC judges every jls_rd_annotations outcome with JlsApi!RdAnnoVerdict (tokens over all annotation fields and bytes).",
+    design_ref="DESIGN.md section 6 C11, section 12",
+    note="Trusted: as C01. The design model found the equal-timestamp seek defect (fixed, C11-F1).",
+    technique="TLC model checking of the index/seek design + replay of its whole state space into the C code + TLC trace validation against the contract",
+)
+
 NOT_YET = {}
 
 
